@@ -650,7 +650,7 @@ mod imp {
         let mut tag = |t: &mut u64| { *t += 1; *t };
         let names = ["op", "relay", "pick", "conv", "emit"];
         let nm = names[r.below(names.len() as u64) as usize].to_string();
-        let shape = r.below(4);
+        let shape = r.below(6);
         let budget = 3_000_000u64;
         let mut expected: Vec<u64> = Vec::new();
         let src: String;
@@ -720,6 +720,53 @@ mod imp {
             aelys_runtime::verif::budget_set(u64::MAX);
             out = classify(res, o);
             let _ = std::fs::remove_dir_all(&dir);
+        } else if shape == 4 {
+            // (d) a local, a parameter, a captured variable and a top-level definition named like a VM builtin, called with the
+            // builtin's own number of arguments: the call runs what the name denotes there, not the intrinsic
+            let (bn, ar) = [("type", 1), ("alloc", 1), ("free", 1), ("load", 2), ("store", 3)][r.below(5) as usize];
+            let params = ["a", "b", "c"][..ar].join(", ");
+            let args = ["1", "2", "3"][..ar].join(", ");
+            let (ta, tb, tc, td) = (tag(&mut tagn), tag(&mut tagn), tag(&mut tagn), tag(&mut tagn));
+            let l = |t: u64| format!("fn({}) {{ return \"{}\" }}", params, tag_text(t));
+            let mut m = String::new();
+            m.push_str(&format!("fn t1() {{\n    let {} = {}\n    return {}({})\n}}\n", bn, l(ta), bn, args));
+            m.push_str(&format!("fn t2({}) {{ return {}({}) }}\n", bn, bn, args));
+            m.push_str(&format!("fn t3() {{\n    let {} = {}\n    return fn(y) {{ return {}({}) }}\n}}\nlet k3 = t3()\n", bn, l(tc), bn, args));
+            let top = r.chance(1, 2);
+            if top { m.push_str(&format!("let {} = {}\n", bn, l(td))); }
+            for _ in 0..(3 + r.below(4)) {
+                match r.below(if top { 4 } else { 3 }) {
+                    0 => { m.push_str("println(t1())\n"); expected.push(ta); }
+                    1 => { m.push_str(&format!("println(t2({}))\n", l(tb))); expected.push(tb); }
+                    2 => { m.push_str("println(k3(0))\n"); expected.push(tc); }
+                    _ => { m.push_str(&format!("println({}({}))\n", bn, args)); expected.push(td); }
+                }
+            }
+            src = m;
+            out = if r.chance(1, 2) { run_program_script(&src, opt, (0, 0), budget, None).0 }
+                  else { let mut vm = aelys_driver::new_vm_with_config(Default::default(), Vec::new()).unwrap(); run_on_vm(&mut vm, &src, opt.min(1), budget) };
+        } else if shape == 5 {
+            // (e) the program defines a global under the name of an imported symbol (a string method known without an import,
+            // or a function imported by name from std.math in an earlier REPL input): calls run the program's definition and
+            // the library function stays what it was
+            let (ta, tb) = (tag(&mut tagn), tag(&mut tagn));
+            let mut vm = aelys_driver::new_vm_with_config(Default::default(), Vec::new()).unwrap();
+            if r.chance(1, 2) {
+                let sn = ["count", "trim", "reverse", "repeat", "find", "lines", "contains"][r.below(7) as usize];
+                let def = if r.chance(1, 2) { format!("let {} = fn(x) {{ return \"{}\" }}", sn, tag_text(ta)) } else { format!("fn {}(x) {{ return \"{}\" }}", sn, tag_text(ta)) };
+                let inner = format!("fn via(x) {{ return {}(x) }}", sn);
+                src = format!("{}\n{}\nprintln({}(1))\nprintln(via(1))\nlet mut alias = {}\nprintln(alias(1))\n", def, inner, sn, sn);
+                expected.extend([ta, ta, ta]);
+                out = run_on_vm(&mut vm, &src, opt.min(1), budget);
+            } else {
+                let inputs = ["needs floor from std.math\n".to_string(), format!("fn floor(x) {{ return \"{}\" }}\n", tag_text(tb)), "println(floor(-2.5))\n".to_string(), "needs std.math as mm\n".to_string(),
+                              "println(mm.floor(-2.5))\n".to_string()];
+                let mut o = String::new(); let mut cls = "ok".to_string(); let mut det = String::new();
+                for i in &inputs { let x = run_on_vm(&mut vm, i, opt.min(1), budget); o.push_str(&x.output); if x.class != "ok" && cls == "ok" { cls = x.class.clone(); det = x.detail.clone(); } }
+                src = inputs.join("=====\n");
+                expected.extend([tb, TAG_FLOOR]);
+                out = Outcome { class: cls, output: o, value: String::new(), detail: det };
+            }
         } else {
             // (c) a capturing closure in a global that itself creates nested lambdas, called several times from ONE site
             let (ta, tb) = (tag(&mut tagn), tag(&mut tagn));
